@@ -130,7 +130,7 @@ def h_migration_returns_configured_rules(ctx):
 def harnesses(tier):
     return [Harness('cmd_discover.wiring', h_wiring('discover'), ['tally.commands.discover.cmd_discover']),
             Harness('cmd_explain.wiring', h_wiring('explain'), ['tally.commands.explain.cmd_explain']),
-            Harness('_check_merchant_migration', h_migration_returns_configured_rules, ['tally.cli._check_merchant_migration'])]
+            Harness('_check_merchant_migration', h_migration_returns_configured_rules, ['tally.cli._check_merchant_migration'])] + __import__('props.C16_explain', fromlist=['x']).harnesses(tier)
 
 
 def structural(tier, res):
